@@ -13,6 +13,7 @@ from lib.verdict import Verdict
 
 PROP = "C20"
 ALPHABET = ["0", "1", "7", "9", "a", "f", "b", "o", "x", "_", "u", "l", "g", "-", " ", "+"]
+TOKENS = ["0x", "0b", "0o", "0", "1", "9", "a", "f", "b", "_", "u", "l"]
 
 
 def big(n):
@@ -240,6 +241,15 @@ def run(tier):
         raise Machinery(f"case space mismatch: TLC has {mc.distinct} states, emitted {len(cases)} + {n_expected_strings} strings")
     cases += [{"fn": "value_to_int_str", "a": {"s": s}} for s in strings]
     cases += sampled_cases(r, 300 if tier == "quick" else 5000)
+    # token lane: every sequence of <= 4 (thorough: 5) grammar tokens - reaches strings of up to 8 (10) characters with repeated prefixes,
+    # digits that are letters of another radix, suffix letters in digit position ... (added after the thorough tier found "0b0b1" = 1)
+    seen = {tuple(s) for s in strings}
+    for k in range(1, (4 if tier == "quick" else 5) + 1):
+        for t in itertools.product(TOKENS, repeat=k):
+            s = "".join(t)
+            if tuple(s) not in seen:
+                seen.add(tuple(s))
+                cases.append({"fn": "value_to_int_str", "a": {"s": list(s)}})
 
     # ---- execute on the real code
     obs = []
